@@ -188,4 +188,10 @@ def r1_10(ctx):
     r7_15(ctx, "R1.10", " [C01: the one place where a table's columns are cut down to the available width]")
 
 
-RULES = [r1_1, r1_2, r1_3, r1_4, r1_5, r1_6, r1_7, r1_8, r1_9, r1_10]
+def r1_11(ctx):
+    from .c08 import r8_17
+    from .common import borrow
+    borrow(ctx, r8_17, "R8.17", "R1.11", " [a title wider than it was measured makes the top border exceed the available width]")
+
+
+RULES = [r1_1, r1_2, r1_3, r1_4, r1_5, r1_6, r1_7, r1_8, r1_9, r1_10, r1_11]
